@@ -454,7 +454,7 @@ theorem fill_one {cap n : Nat} (r : α) {s : S α} (hF : Filling n s) (hn : n < 
   have hp := hF.idle n (Nat.le_refl n)
   let s1 : S α := setPc s n (.want r)
   have h1 : step cap s (.pStart n r) = some s1 := by simp [step, hp, s1]
-  let s2 : S α := { (setPc s1 n (.locked r)) with cmu := some (.prod n), lockEp := fun j => if j = n then s1.epoch else s1.lockEp j }
+  let s2 : S α := { (setPc s1 n (.locked r)) with cmu := some (.prod n), lockEp := fun j => if j = n then s1.epoch else s1.lockEp j, lockSeq := s1.lockSeq ++ [r] }
   have h2 : step cap s1 (.pLock n) = some s2 := by simp [step, s1, s2, setPc, hF.cmu]
   let s3 : S α := { (setPc (doEnq cap s2 r (s2.lockEp n)) n .done) with cmu := none }
   have hlen2 : s2.queue.length = n := by simp [s2, s1, setPc, hF.len]
@@ -505,7 +505,7 @@ theorem s12_reachable (cap : Nat) (r : α) : ∃ s : S α, run cap init (s12Sche
   have hp := hF1.idle cap (Nat.le_refl cap)
   let s2 : S α := setPc s1 cap (.want r)
   have e2 : step cap s1 (.pStart cap r) = some s2 := by simp [step, hp, s2]
-  let s3 : S α := { (setPc s2 cap (.locked r)) with cmu := some (.prod cap), lockEp := fun j => if j = cap then s2.epoch else s2.lockEp j }
+  let s3 : S α := { (setPc s2 cap (.locked r)) with cmu := some (.prod cap), lockEp := fun j => if j = cap then s2.epoch else s2.lockEp j, lockSeq := s2.lockSeq ++ [r] }
   have e3 : step cap s2 (.pLock cap) = some s3 := by simp [step, s2, s3, setPc, hF1.cmu]
   let s4 : S α := { s3 with streamCh := none, spc := .adoptWait 2 }
   have e4 : step cap s3 .sTakeStream = some s4 := by simp [step, s3, s2, setPc, hF1.sel, hF1.ch, s4]
@@ -1240,6 +1240,167 @@ theorem sentpar_step {cap : Nat} {s s' : S α} {l : Lbl α} (hC : SentPar s) (h 
   cases l <;> simp only [step] at h <;> (repeat' split at h) <;> (try (simp at h; done)) <;>
     (try (simp at h)) <;> (try subst h) <;> simp_all [setPc, doEnq] <;> (try split) <;> (try simp_all)
 
+/-- the request of the producer (or acknowledging receiver) that is inside its lock section, if any -/
+def pendingLocked (s : S α) : List α :=
+  match s.cmu with
+  | some (.prod i) => (match s.pc i with | .locked r => [r] | _ => [])
+  | some .recv => (match s.rpc with | .ackLocked r _ => [r] | _ => [])
+  | none => []
+
+/-- while the client is running, requests enter the channel in the order in which their producers took the client lock -/
+def LockOrder (s : S α) : Prop := s.closed = false → s.lockSeq = s.enq ++ pendingLocked s
+
+theorem lockorder_init : LockOrder (init : S α) := by intro _; simp [init, pendingLocked]
+
+theorem lockorder_step {cap : Nat} {s s' : S α} {l : Lbl α} (hI : Inv cap s) (hL : LockOrder s) (h : step cap s l = some s') : LockOrder s' := by
+  intro hcl'
+  cases l with
+  | pStart i r =>
+    simp only [step] at h
+    split at h <;> simp at h
+    next hp =>
+    subst h
+    have := hL hcl'
+    simp only [pendingLocked] at this ⊢
+    -- the lock holder (if any) is not `i` (whose pc is idle)
+    cases hm : s.cmu with
+    | none => simp [hm, setPc] at this ⊢; exact this
+    | some hd =>
+      cases hd with
+      | recv => simp [hm, setPc] at this ⊢; exact this
+      | prod j =>
+        have hj : j ≠ i := by
+          intro e; subst e
+          obtain ⟨r', hr'⟩ := (hI.lockP j).1 hm
+          rw [hp] at hr'; cases hr'
+        simp [hm, setPc, hj] at this ⊢; exact this
+  | pLock i =>
+    simp only [step] at h
+    split at h <;> simp at h
+    next r hp hc =>
+    subst h
+    have := hL hcl'
+    simp [pendingLocked, hc] at this
+    simp [pendingLocked, setPc, this]
+  | pEnq i =>
+    simp only [step] at h
+    split at h <;> try (simp at h; done)
+    next r hp =>
+    split at h <;> simp at h
+    next hcan =>
+    subst h
+    simp [setPc] at hcl'
+    have hown : s.cmu = some (.prod i) := (hI.lockP i).2 ⟨r, hp⟩
+    have := hL hcl'
+    simp [pendingLocked, hown, hp] at this
+    have hroom : s.queue.length < cap := by
+      simp [canEnq, hcl'] at hcan; exact hcan
+    simp [pendingLocked, doEnq, hroom, setPc, this]
+  | rAckLock =>
+    simp only [step] at h
+    split at h <;> simp at h
+    next r k hr hc =>
+    subst h
+    have := hL hcl'
+    simp [pendingLocked, hc] at this
+    simp [pendingLocked, this]
+  | rAckEnq =>
+    simp only [step] at h
+    split at h <;> try (simp at h; done)
+    next r k hr =>
+    split at h <;> simp at h
+    next hcan =>
+    subst h
+    simp at hcl'
+    have hown : s.cmu = some .recv := hI.lockR.2 ⟨r, k, hr⟩
+    have := hL hcl'
+    simp [pendingLocked, hown, hr] at this
+    have hroom : s.queue.length < cap := by
+      simp [canEnq, hcl'] at hcan; exact hcan
+    simp [pendingLocked, doEnq, hroom, this]
+  | rAuthFail =>
+    simp only [step] at h
+    split at h <;> simp at h
+    subst h; simp at hcl'
+  | sTakeReq =>
+    simp only [step] at h
+    split at h <;> try (simp at h; done)
+    split at h <;> simp at h <;> subst h <;> exact hL hcl'
+  | sSendDone =>
+    simp only [step] at h
+    split at h <;> try (simp at h; done)
+    split at h <;> try (simp at h; done)
+    split at h <;> simp at h <;> subst h <;> exact hL hcl'
+  | sTakeStream =>
+    simp only [step] at h
+    split at h <;> simp at h
+    subst h; exact hL hcl'
+  | sAdopt b =>
+    simp only [step] at h
+    split at h <;> try (simp at h; done)
+    split at h <;> simp at h <;> subst h <;> exact hL hcl'
+  | sExit =>
+    simp only [step] at h
+    split at h <;> try (simp at h; done)
+    split at h <;> simp at h
+    subst h; exact hL hcl'
+  | rResp r =>
+    simp only [step] at h
+    split at h <;> simp at h
+    next k hr =>
+    subst h
+    have := hL hcl'
+    simp only [pendingLocked] at this ⊢
+    cases hm : s.cmu with
+    | none => simp [hm] at this ⊢; exact this
+    | some hd =>
+      cases hd with
+      | prod j => simp [hm] at this ⊢; exact this
+      | recv =>
+        obtain ⟨r', k', hr'⟩ := hI.lockR.1 hm
+        rw [hr] at hr'; cases hr'
+  | rFail =>
+    simp only [step] at h
+    split at h <;> simp at h
+    next k hr =>
+    subst h
+    have := hL hcl'
+    simp only [pendingLocked] at this ⊢
+    cases hm : s.cmu with
+    | none => simp [hm] at this ⊢; exact this
+    | some hd =>
+      cases hd with
+      | prod j => simp [hm] at this ⊢; exact this
+      | recv =>
+        obtain ⟨r', k', hr'⟩ := hI.lockR.1 hm
+        rw [hr] at hr'; cases hr'
+  | rDrain =>
+    simp only [step] at h
+    split at h <;> simp at h
+    next k hr hc =>
+    subst h
+    have := hL hcl'
+    simp [pendingLocked, hc] at this ⊢
+    exact this
+  | rPublish =>
+    simp only [step] at h
+    split at h <;> simp at h
+    next k hr hch =>
+    subst h
+    have := hL hcl'
+    simp only [pendingLocked] at this ⊢
+    cases hm : s.cmu with
+    | none => simp [hm] at this ⊢; exact this
+    | some hd =>
+      cases hd with
+      | prod j => simp [hm] at this ⊢; exact this
+      | recv =>
+        obtain ⟨r', k', hr'⟩ := hI.lockR.1 hm
+        rw [hr] at hr'; cases hr'
+  | stall => simp only [step] at h; simp at h; subst h; exact hL hcl'
+  | resume => simp only [step] at h; simp at h; subst h; exact hL hcl'
+
+
 /-- everything known about a reachable state -/
 structure Reach (cap : Nat) (s : S α) : Prop where
   inv : Inv cap s
@@ -1248,11 +1409,12 @@ structure Reach (cap : Nat) (s : S α) : Prop where
   live : NoFailure s → Live s
   ep : Ep s
   par : SentPar s
+  lock : LockOrder s
 
-theorem reach_init (cap : Nat) : Reach cap (init : S α) := ⟨inv_init cap, hist_init, cnt_init, fun _ => live_init, ep_init, sentpar_init⟩
+theorem reach_init (cap : Nat) : Reach cap (init : S α) := ⟨inv_init cap, hist_init, cnt_init, fun _ => live_init, ep_init, sentpar_init, lockorder_init⟩
 
 theorem reach_step {cap : Nat} {s s' : S α} {l : Lbl α} (hR : Reach cap s) (h : step cap s l = some s') : Reach cap s' :=
-  ⟨inv_step hR.inv h, hist_step hR.hist h, cnt_step hR.cnt h, live_step hR.live h, ep_step hR.inv hR.ep h, sentpar_step hR.par h⟩
+  ⟨inv_step hR.inv h, hist_step hR.hist h, cnt_step hR.cnt h, live_step hR.live h, ep_step hR.inv hR.ep h, sentpar_step hR.par h, lockorder_step hR.inv hR.lock h⟩
 
 theorem reach_run {cap : Nat} {s s' : S α} {ls : List (Lbl α)} (hR : Reach cap s) (h : run cap s ls = some s') : Reach cap s' := by
   induction ls generalizing s with
@@ -1403,7 +1565,7 @@ theorem internal_step_decreases {cap n : Nat} {s s' : S α} {l : Lbl α} (hS : S
     next r hp hc =>
     subst h
     have hin : i < n := lt_of_active hS (by simp [hp])
-    obtain ⟨W, hW, hEq⟩ := work_setPc (n := n) (s := s) (s' := { (setPc s i (.locked r)) with cmu := some (.prod i), lockEp := fun j => if j = i then s.epoch else s.lockEp j })
+    obtain ⟨W, hW, hEq⟩ := work_setPc (n := n) (s := s) (s' := { (setPc s i (.locked r)) with cmu := some (.prod i), lockEp := fun j => if j = i then s.epoch else s.lockEp j, lockSeq := s.lockSeq ++ [r] })
       (p := .locked r) s.queue.length hin rfl rfl rfl rfl rfl rfl
     rw [hp] at hEq
     refine ⟨?_, ?_⟩
@@ -1568,5 +1730,13 @@ theorem comes_to_rest {cap : Nat} (hcap : 0 < cap) {s : S α} (hR : Reach cap s)
   intro hns hst
   exact stuck_cases hcap (reach_run hR h).inv hns hst
 
+
+/-- **the wire follows the lock order**: on a stream that has not failed, at quiescence the control plane has received the
+requests in exactly the order in which their producers held the client lock — the order of the atomic operations of the
+sequential model, in which every request lists the interest set as its own operation left it -/
+theorem live_wire_eq_lock_order {cap : Nat} {s : S α} (hR : Reach cap s) (hn : NoFailure s) (hq : s.queue = []) (hi : inflight s = [])
+    (hc : s.cmu = none) (hcl : s.closed = false) : s.sent.map (·.2) = s.lockSeq := by
+  rw [live_wire_eq_enq hR hn hq hi, hR.lock hcl]
+  simp [pendingLocked, hc]
 
 end XdsVerif.Flow
